@@ -23,12 +23,132 @@ let hex_px (l : Vp8lPixel.px list) : string =
   hex_of_bytes (Stdlib.List.concat_map (fun p ->
     [int_of_z p.Vp8lPixel.pr; int_of_z p.Vp8lPixel.pg; int_of_z p.Vp8lPixel.pb; int_of_z p.Vp8lPixel.pa]) l)
 
+(* ---- plan parser: a flat list of integers, see harness/c03/plan.go ---- *)
+exception Bad_plan of string
+let parse_plan (toks : string list) : Vp8lEmit.plan =
+  let a = Array.of_list (Stdlib.List.map int_of_string toks) in
+  let i = ref 0 in
+  let next () = if !i >= Array.length a then raise (Bad_plan "short") else (let v = a.(!i) in incr i; v) in
+  let z () = z_of_int (next ()) in
+  let rec times n f = if n <= 0 then [] else let x = f () in x :: times (n - 1) f in
+  let cltok () = match next () with
+    | 16 -> Vp8lEmit.CLrep16 (z ()) | 17 -> Vp8lEmit.CLrep17 (z ()) | 18 -> Vp8lEmit.CLrep18 (z ())
+    | l -> Vp8lEmit.CLlit (z_of_int l) in
+  let code () = match next () with
+    | 0 -> let n = next () in Vp8lEmit.CSimple (times n z)
+    | 1 -> let ncl = z () in let cl = times 19 z in let um = z () in let n = next () in
+      Vp8lEmit.CNormal (ncl, cl, um, times n cltok)
+    | _ -> raise (Bad_plan "code") in
+  let token () = match next () with
+    | 0 -> let a = z () in let r = z () in let g = z () in let b = z () in
+      Vp8lEmit.TLit { Vp8lPixel.pa = a; pr = r; pg = g; pb = b }
+    | 1 -> Vp8lEmit.TCache (z ())
+    | 2 -> let l = z () in let d = z () in Vp8lEmit.TCopy (l, d)
+    | _ -> raise (Bad_plan "token") in
+  let eimg () =
+    let cb = z () in let ng = next () in
+    let codes = times ng (fun () -> times 5 code) in
+    let nt = next () in
+    let tk = times nt token in
+    { Vp8lEmit.ep_cache_bits = cb; ep_codes = codes; ep_tokens = tk } in
+  let transform () = match next () with
+    | 0 -> let b = z () in Vp8lEmit.TPPred (b, eimg ())
+    | 1 -> let b = z () in Vp8lEmit.TPCross (b, eimg ())
+    | 2 -> Vp8lEmit.TPSubGreen
+    | 3 -> let n = z () in Vp8lEmit.TPIndex (n, eimg ())
+    | _ -> raise (Bad_plan "transform") in
+  let w = z () in let h = z () in let alpha = z () in
+  let nt = next () in
+  let ts = times nt transform in
+  let meta = if next () = 1 then (let mb = z () in Some (mb, eimg ())) else None in
+  let main = eimg () in
+  if !i <> Array.length a then raise (Bad_plan "trailing");
+  { Vp8lEmit.p_w = w; p_h = h; p_alpha = alpha; p_transforms = ts; p_meta = meta; p_main = main }
+
+let px_of_u32 (s : string) : Vp8lPixel.px =
+  let v = int_of_string s in
+  { Vp8lPixel.pa = z_of_int ((v lsr 24) land 255); pr = z_of_int ((v lsr 16) land 255);
+    pg = z_of_int ((v lsr 8) land 255); pb = z_of_int (v land 255) }
+let u32_of_px (p : Vp8lPixel.px) : int =
+  (int_of_z p.Vp8lPixel.pa lsl 24) lor (int_of_z p.Vp8lPixel.pr lsl 16) lor (int_of_z p.Vp8lPixel.pg lsl 8) lor int_of_z p.Vp8lPixel.pb
+let show_u32s (l : Vp8lPixel.px list) : string =
+  String.concat "," (Stdlib.List.map (fun p -> Printf.sprintf "%x" (u32_of_px p)) l)
+let pxs_of_csv (s : string) : Vp8lPixel.px list =
+  if s = "-" then [] else Stdlib.List.map (fun t -> px_of_u32 ("0x" ^ t)) (String.split_on_char ',' s)
+
+(* The extracted list functions are not tail recursive: re-run ourselves with a
+   large stack (the hard limit permitting) before reading any case. *)
+let () =
+  if Sys.getenv_opt "VP8L_RUNNER_STACK" = None then
+    exit (Sys.command (Printf.sprintf
+      "ulimit -s unlimited 2>/dev/null || ulimit -s 1000000 2>/dev/null; VP8L_RUNNER_STACK=1 exec %s"
+      (Filename.quote Sys.executable_name)))
+
+let () = Gc.set { (Gc.get ()) with Gc.minor_heap_size = 4 * 1024 * 1024; Gc.space_overhead = 400 }
+
 let () = iter_lines (fun line ->
   (match split_ws line with
   | ["dec"; hex] | ["dec"; _; hex] ->
     let r = match Vp8lSpec.decode (zbytes_of_hex hex) with
       | Res.Ok im -> show_image im.Vp8lSpec.i_w im.Vp8lSpec.i_h im.Vp8lSpec.i_px
       | _ -> "ERR" in
+    Printf.printf "I %s S %s\n" r r
+  | "emit" :: toks ->
+    (try Printf.printf "H %s\n" (hex_of_bytes (Stdlib.List.map int_of_z (Vp8lEmit.emit (parse_plan toks))))
+     with Bad_plan m -> Printf.printf "ERR bad-plan %s\n" m)
+  | "plan" :: _tag :: toks ->
+    (try
+       let p = parse_plan toks in
+       let bytes = Vp8lEmit.emit p in
+       let i = match Vp8lSpec.decode bytes with
+         | Res.Ok im -> show_image im.Vp8lSpec.i_w im.Vp8lSpec.i_h im.Vp8lSpec.i_px
+         | _ -> "ERR" in
+       let sm = Vp8lEmit.sem p in
+       Printf.printf "I %s S %s\n" i (show_image sm.Vp8lSpec.i_w sm.Vp8lSpec.i_h sm.Vp8lSpec.i_px)
+     with Bad_plan m -> Printf.printf "ERR bad-plan %s\n" m)
+  | ["cpb"; pos; dist; len; data] ->
+    let d = pxs_of_csv data in
+    let n s = nat_of_int (int_of_string s) in
+    let i = Vp8lKernels.copy_block Vp8lPixel.px_zero d (n pos) (n dist) (n len) in
+    let s = Vp8lKernels.copy_fwd Vp8lPixel.px_zero (n len) d (n pos) (n dist) in
+    Printf.printf "I %s S %s\n" (show_u32s i) (show_u32s s)
+  | ["ecm"; ncolors; bits; pal] ->
+    let p = pxs_of_csv pal in
+    let b = int_of_string bits in
+    let i = Vp8lKernels.expand_color_map (z_of_string ncolors) (z_of_int b) p in
+    let a = Vp8lArr.arr_of_list (Vp8lSpec.undelta Vp8lPixel.px_zero p) in
+    let s = Stdlib.List.init (1 lsl (8 lsr b)) (fun k -> Vp8lArr.arr_get Vp8lPixel.px_zero a (z_of_int k)) in
+    Printf.printf "I %s S %s\n" (show_u32s i) (show_u32s s)
+  | "aiv" :: w :: h :: cw :: nt :: rest ->
+    let rec ts k r = if k = 0 then ([], r) else match r with
+      | ty :: bits :: xs :: ys :: data :: tl ->
+        let d = pxs_of_csv data in
+        let d = if ty = "3" then Vp8lSpec.undelta Vp8lPixel.px_zero d else d in
+        let t = { Vp8lSpec.t_type = z_of_string ty; t_bits = z_of_string bits; t_w = z_of_string xs;
+                  t_h = z_of_string ys; t_data = d } in
+        let (l, r') = ts (k - 1) tl in (t :: l, r')
+      | _ -> failwith "aiv" in
+    let (tl, r) = ts (int_of_string nt) rest in
+    let coded = match r with [c] -> pxs_of_csv c | _ -> failwith "aiv coded" in
+    let wi = int_of_string w and hi = int_of_string h and cwi = int_of_string cw in
+    let numalloc = max (wi * hi) (cwi * hi) in
+    let zeros n = Stdlib.List.init (max n 0) (fun _ -> Vp8lPixel.px_zero) in
+    let sa = zeros (numalloc - cwi * hi + wi + wi * 16) and sb = zeros numalloc in
+    let res = Vp8lInPlace.apply_inverse_pingpong tl coded sa sb in
+    let take n l = Stdlib.List.filteri (fun i _ -> i < n) l in
+    Printf.printf "I %s S %s\n" (show_u32s (take (wi * hi) res)) (show_u32s (Vp8lSpec.apply_inverse tl coded))
+  | "huf" :: bits :: lens ->
+    let lz = Stdlib.List.map z_of_string lens in
+    let b = int_of_string bits in
+    let bl = Stdlib.List.init 32 (fun k -> (b lsr k) land 1 = 1) in
+    let r = match Vp8lPrefix.tree_of_lens lz with
+      | Res.Ok t -> (match Vp8lPrefix.read_symbol t bl with
+          | Res.Ok (sym, rest) -> Printf.sprintf "%d %d" (int_of_z sym) (32 - Stdlib.List.length rest)
+          | _ -> "ERR")
+      | _ -> "ERR" in
+    Printf.printf "I %s S %s\n" r r
+  | ["p2d"; w; code] ->
+    let r = string_of_z (Vp8lSpec.plane_to_dist (z_of_string w) (z_of_string code)) in
     Printf.printf "I %s S %s\n" r r
   | ["pix"; hex] ->
     (match Vp8lSpec.decode (zbytes_of_hex hex) with
